@@ -35,6 +35,8 @@ structure J where
   idx : Nat := 0                                  -- index of the current event
   prod : List ((String × String × Int) × Nat) := []     -- (key, entry, timestamp) ↦ event that produced this entry version
   created : List ((String × String × Int) × Nat) := []  -- (key, entry, tombstone timestamp) ↦ first removal event that created it
+  forged : Bool := false                          -- a corrupted message decoded to content no writer produced
+  nLearnt : Nat := 0                              -- tombstones a node learned from a message without ever having shown the entry
   nTomb : Nat := 0
   nBlocked : Nat := 0
   nSame : Nat := 0
@@ -82,8 +84,9 @@ def checkSnap (conf : Conf) (j : J) (n : Nat) (tn : Int) (sn : Snap) : J := Id.r
         | some e => (findEnt (ents e.val) name).isSome
         | none => false
       if !present then
+        -- a tombstone that vanished before its retention stays on record: the entry must still not come back
         if conf.lit == 0 ∨ t ≥ tn - conf.lit + 2 then j := j.flag s!"tombstone-discarded-before-retention:{k}/{name}"
-        j := { j with tombs := j.tombs.filter (·.1 != (n', k, name)) }
+        else j := { j with tombs := j.tombs.filter (·.1 != (n', k, name)) }
   return setPrev j n sn.store
 
 def isTombVal (s : String) : Bool :=
@@ -99,6 +102,32 @@ def attempts (j : J) (n : Nat) (m : Msg Val) : Nat × Nat :=
     match tombGet j.tombs (n, m.key, name) with
     | some t => if !tomb ∧ ts ≤ t then (a + 1, if ts == t then b + 1 else b) else (a, b)
     | none => (a, b)) (0, 0)
+
+/-- node `n` received message `m`: from now on it has LEARNED of every removal the message carries,
+whether or not it ever showed the entry: the tombstone must be retained there (or superseded by a
+newer entry) and a tombstone that is new to the node must be in its next gossip batch -/
+def learn (conf : Conf) (tn : Int) (j : J) (n : Nat) (m : Msg Val) : J := Id.run do
+  let mut j := j
+  if j.forged ∨ m.key.isEmpty then return j
+  let before := match getE (prevStore j n) m.key with | some e => ents e.val | none => []
+  -- a value of another type under the key makes the merge fail as a whole: nothing is learned
+  let kindOk := match getE (prevStore j n) m.key, m.val with
+    | some e, .ring _ => (match e.val with | .ring _ => true | _ => false)
+    | some e, .part _ => (match e.val with | .part _ => true | _ => false)
+    | none, _ => true
+  if !kindOk then return j
+  for (name, t, tomb, _) in ents m.val do
+    if tomb ∧ (conf.lit == 0 ∨ t ≥ tn - conf.lit + 2) then
+      let known := match findEnt before name with
+        | some (ts, tb) => ts > t || (ts == t && tb)
+        | none => false
+      if !known then
+        if (findEnt before name).isNone then j := { j with nLearnt := j.nLearnt + 1 }
+        match tombGet j.tombs (n, m.key, name) with
+        | some t0 => if t > t0 then j := { j with tombs := tombSet j.tombs (n, m.key, name) t }
+        | none => j := { j with tombs := tombSet j.tombs (n, m.key, name) t, nTomb := j.nTomb + 1 }
+        j := { j with fwd := (n, m.key, name, t) :: j.fwd }
+  return j
 
 /-- after node `n` received message `m`: every removal the message carries must have taken effect,
 i.e. no entry version produced before that removal is still shown by the node -/
@@ -185,11 +214,14 @@ def judge (conf : Conf) (evs obs : List String) : J := Id.run do
         | some msg =>
           let (a, b) := attempts j n msg
           j := { j with nBlocked := j.nBlocked + a, nSame := j.nSame + b }
-          if !msg.key.isEmpty then j := learned conf j msg sn
+          if !msg.key.isEmpty then
+            j := learned conf j msg sn
+            j := learn conf tn j n msg
         | none => pure ()
         j := checkSnap conf j n tn sn
       | _, _, _ => j := j.flag "unparsable-observation"
-    | ["x", n, _, _, _], [_, _, _, _, after] =>
+    | ["x", n, _, _, _], [_, cls, _, _, after] =>
+      if cls == "ok" then j := { j with forged := true }
       match n.toNat?, parseSnap after with
       | some n, some sn => j := checkSnap conf j n tn sn
       | _, _ => j := j.flag "unparsable-observation"
@@ -213,10 +245,12 @@ def judge (conf : Conf) (evs obs : List String) : J := Id.run do
               let (x, y) := attempts j b msg
               j := { j with nBlocked := j.nBlocked + x, nSame := j.nSame + y }
               j := learned conf j msg sn
+              j := learn conf tn j b msg
             | none => pure ()
         j := checkSnap conf j b tn sn
       | _, _, _ => j := j.flag "unparsable-observation"
-    | ["ppx", _, b, _, _], [_, _, _, snapB] =>
+    | ["ppx", _, b, mode, _], [_, pairs, _, snapB] =>
+      if mode != "trunc" ∧ (pairs.splitOn "|").any (·.startsWith "ok:") then j := { j with forged := true }
       match b.toNat?, parseSnap snapB with
       | some b, some sn => j := checkSnap conf j b tn sn
       | _, _ => j := j.flag "unparsable-observation"
@@ -255,7 +289,7 @@ def handleRun (f : List String) : String × String × String :=
     let (_, d) := replay conf evs obs
     let j := judge conf evs obs
     let bad := j.bad.eraseDups
-    let tags := s!"n={conf.n} tomb={bucket j.nTomb} blocked={bucket j.nBlocked} samesec={bucket j.nSame} stripped={bucket j.nStripped} lit={conf.lit} gc={bit conf.gc} skew={bit conf.skew} sl={bucket (countEv evs "sl")} rs={bucket (countEv evs "rs!")}"
+    let tags := s!"n={conf.n} learnt={bucket j.nLearnt} tomb={bucket j.nTomb} blocked={bucket j.nBlocked} samesec={bucket j.nSame} stripped={bucket j.nStripped} lit={conf.lit} gc={bit conf.gc} skew={bit conf.skew} sl={bucket (countEv evs "sl")} rs={bucket (countEv evs "rs!")}"
     (d.getD "-", if bad.isEmpty then "-" else ",".intercalate bad, tags)
   | _ => ("bad-fields", "-", "-")
 
